@@ -52,6 +52,7 @@ type Engine struct {
 	recCache       map[*ssa.Function]bool
 	ufSpecs        map[string]*ufSpec
 	curInit        *Exec
+	curExec        *Exec
 	smtMu          sync.Mutex
 }
 
